@@ -121,7 +121,7 @@ Definition elig (tbl : list lock) (g : gauge) : list lock :=
   if negb (g_pool g =? 0) then [] else if is_empty (g_coins g) then [] else qual_locks tbl g.
 
 (* lock gauges have a duration above the cache query duration (NoLock gauges carry the 1 ns uptime) *)
-Definition dur_ok (g : gauge) : Prop := g_pool g = 0 -> cache_min_duration_ms < g_dur g.
+Definition dur_ok (g : gauge) : Prop := (g_pool g = 0 -> cache_min_duration_ms < g_dur g) /\ 0 <= g_pool g.
 
 Definition lc_ok (tbl : list lock) (lc : lcache) : Prop :=
   forall d v, lc_get lc d = Some v -> v = locks_longer tbl d cache_min_duration_ms.
@@ -129,7 +129,7 @@ Definition lc_ok (tbl : list lock) (lc : lcache) : Prop :=
 Lemma base_locks_spec : forall tbl g lc ls lc', lc_ok tbl lc -> dur_ok g ->
   base_locks tbl g lc = (ls, lc') -> ls = elig tbl g /\ lc_ok tbl lc'.
 Proof.
-  unfold base_locks, elig, qual_locks, dur_ok. intros tbl g lc ls lc' Hlc Hd H.
+  unfold base_locks, elig, qual_locks, dur_ok. intros tbl g lc ls lc' Hlc [Hd _] H.
   destruct (g_pool g =? 0) eqn:P; cbn [negb] in *; [|inversion H; subst; auto].
   apply Z.eqb_eq in P. specialize (Hd P).
   destruct (is_empty (g_coins g)); [inversion H; subst; auto|].
